@@ -140,3 +140,38 @@ Definition reg_op_requests (op : regop) (plain : bool) (reg a1 num : str) : list
   | RPing => [(m_get, url_base plain r)]
   | RCatalog => [(m_get, with_query (url_catalog plain r) (opt_param (b "n") num ++ opt_param (b "last") a1))]
   end.
+
+(* ---------- the top-level oras.Tag / oras.TagN on a remote Repository (content.go) ----------
+   ReferenceFetcher + ReferencePusher path: FetchReference(src) -- GET manifests/<resolved src>,
+   which fails when src is a digest other than the one the registry serves -- then
+   PushReference(dst) for each destination in turn (TagN with Concurrency 1), stopping at the
+   first destination the Repository refuses.  [served] = digest of what the registry returns. *)
+Section Compound.
+  Variable avail : str -> bool.
+  Variable valid_registry : str -> bool.
+  Variable plain : bool.
+  Variables breg brepo : str.
+
+  Fixpoint put_until_refused (dsts : list str) : list (str * str) :=
+    match dsts with
+    | [] => []
+    | dst :: rest =>
+        match repo_parse avail valid_registry breg brepo dst with
+        | Some r2 => (m_put, url_manifest plain r2) :: put_until_refused rest
+        | None => []
+        end
+    end.
+
+  Definition fetch_ok (r : reference) (served : str) : bool :=
+    if valid_digest avail (r_reference r) then str_eqb (r_reference r) served else true.
+
+  Definition oras_tag_requests (src : str) (dsts : list str) (served : str) : list (str * str) :=
+    match dsts with
+    | [] => []
+    | _ =>
+        match repo_parse avail valid_registry breg brepo src with
+        | None => []
+        | Some r => (m_get, url_manifest plain r) :: (if fetch_ok r served then put_until_refused dsts else [])
+        end
+    end.
+End Compound.
